@@ -35,6 +35,8 @@ impl BytesMut {
     #[verifier::external_body]
     pub fn new() -> (r: BytesMut) ensures r@ == Seq::<u8>::empty() { BytesMut { v: Vec::new() } }
     #[verifier::external_body]
+    pub fn vx_from_slice(s: &[u8]) -> (r: BytesMut) ensures r@ == s@ { BytesMut { v: s.to_vec() } }
+    #[verifier::external_body]
     pub fn with_capacity(n: usize) -> (r: BytesMut) ensures r@ == Seq::<u8>::empty() { BytesMut { v: Vec::new() } }
     #[verifier::external_body]
     pub fn len(&self) -> (r: usize) ensures r == self@.len(), r <= isize::MAX as usize { self.v.len() }
